@@ -3,6 +3,7 @@ import ProfiVerif.Driver.PhyRx
 import ProfiVerif.Driver.Gap
 import ProfiVerif.Driver.Diag
 import ProfiVerif.Driver.Apps
+import ProfiVerif.Driver.Prm
 open PV PV.Driver
 
 /-
@@ -16,6 +17,8 @@ def main (args : List String) : IO UInt32 := do
   match args with
   | ["model", "codec"] => engineLoop (fun (_ : Unit) l => ((), (stepCodec (splitWords l)).getD "bad-op")) () inp out; return 0
   | ["model", "decoder"] => engineLoop (fun (_ : Unit) l => ((), (stepDecoder (splitWords l)).getD "bad-op")) () inp out; return 0
+  | ["model", "prm"] => engineLoop stepPrm none inp out; return 0
+  | ["oracle", "C20", o, i] => oracleLoop oracleC20 (none, 0) o i
   | ["model", "phyrx"] => engineLoop stepPhyRx [] inp out; return 0
   | ["model", "apps"] => engineLoop (fun (st : AppsState) l => stepApps st (splitWords l)) {} inp out; return 0
   | ["oracle", "C18", o, i] => oracleLoop oracleC18 {} o i
